@@ -89,6 +89,15 @@ class C07(Driver):
             if kind == "proc":
                 st["child_ms"] = dur if end == "complete" else dur + delta
                 st["code"] = r.choice([0, 1, 7])
+                if r.random() < 0.4:
+                    st["px"] = 1      # :x - a non-zero exit status is raised as an error in the waiting fiber
+            if kind in ("take", "select") and r.random() < 0.3:
+                # a thread channel: its waiters are resumed by a message posted to their thread's loop, and an
+                # entry found stale there is routed on (next waiter, else the item goes back to the queue)
+                st["tchan"] = 1
+            if "deadline" in st and not st.get("via_label") and r.random() < 0.3:
+                # the same deadline spelt by hand: (ev/deadline sec) called inside the coroutine that runs the wait
+                st["bare_dl"] = 1
             if kind == "thread":
                 st["thread_ms"] = dur if end == "complete" else dur + delta
             fire = t + dur if end in ("complete", "tie") else t + dur + delta
@@ -171,7 +180,8 @@ class C07(Driver):
         for st in steps:
             i = st["i"]
             if st["kind"] in ("take", "give", "select", "selectg", "gather"):
-                A("  (put CH [%d 0] (ev/chan 0)) (put CH [%d 1] (ev/chan 0))" % (i, i))
+                mk = "ev/thread-chan" if st.get("tchan") else "ev/chan"
+                A("  (put CH [%d 0] (%s 0)) (put CH [%d 1] (%s 0))" % (i, mk, i, mk))
             if st["kind"] == "accept":
                 A("  (put P [%d :name] (string \"@jsim-c07-\" (os/getpid) \"-%d\")) (put P [%d :srv] (net/listen :unix (P [%d :name])))" % (i, i, i, i))
             if st["kind"] in ("read", "chunk", "write"):
@@ -218,7 +228,8 @@ class C07(Driver):
                 to2 = " %s" % (st["timeout"] / 1000.0) if "timeout" in st else ""
                 return "(do (ev/write (P [%d :w]) (sim/fill %d 4096 100)%s) :wrote)" % (i, 50 + i, to2)
             if k == "proc":
-                return "(let [p (os/spawn [\"sim-child\" \"s%d\" \"x%d\"] :p)] (put PROC %d p) [:exit (os/proc-wait p)])" % (st["child_ms"], st["code"], i)
+                return "(let [p (os/spawn [\"sim-child\" \"s%d\" \"x%d\"] %s)] (put PROC %d p) [:exit (os/proc-wait p)])" % (
+                    st["child_ms"], st["code"], ":px" if st.get("px") else ":p", i)
             if k == "gather":
                 b1 = "(error \"sib-%d\")" % i if st["end"] == "other" else ":b"
                 return "(ev/gather (ev/take (CH [%d 0])) (do (ev/sleep %s) %s))" % (i, st["sib_ms"] / 1000.0, b1)
@@ -256,6 +267,8 @@ class C07(Driver):
                     body = "(prompt :wp%d-%d %s)" % (i, wi, body)
             if "deadline" in st and st.get("via_label"):
                 body = "(label lbl%d (ev/with-deadline %s (return lbl%d %s)))" % (i, st["deadline"] / 1000.0, i, body)
+            elif "deadline" in st and st.get("bare_dl"):
+                body = "(resume (coro (ev/deadline %s) %s))" % (st["deadline"] / 1000.0, body)
             elif "deadline" in st:
                 body = "(ev/with-deadline %s %s)" % (st["deadline"] / 1000.0, body)
             A("  (sim/ev :inv %d)" % i)
@@ -263,6 +276,15 @@ class C07(Driver):
             if st["end"] == "tie" and st["kind"] == "read":
                 # whatever the tie's outcome, the bytes the writer got rid of are either in the result or still there
                 A("  (sim/ev :left %d (do (var tot 0) (forever (def [ok b] (protect (ev/read (P [%d :r]) 4096 @\"\" 0.05))) (if (and ok b (> (length b) 0)) (+= tot (length b)) (break))) tot))" % (i, i))
+        if any(st.get("tchan") for st in steps):
+            # (every adversary has acted by then)
+            A("  (ev/sleep %s)" % ((max([a["t"] for a in plan["adv"]] + [0]) + 3) / 1000.0))
+        for st in steps:
+            if st.get("tchan"):
+                # what is still queued on the thread channels at the end (items of gives that met a stale entry)
+                for c in (0, 1):
+                    A("  (forever (def [ok v] (protect (ev/with-deadline 0.02 (ev/take (CH [%d %d]))))) (if (and ok (not (nil? v))) (sim/ev :tleft %d %d v) (do (sim/ev :tdrained %d %d ok v) (break))))"
+                      % (st["i"], c, st["i"], c, st["i"], c))
         if plan.get("nest"):
             A("  ))")
         A("  (sim/ev :vdone))")
@@ -488,8 +510,12 @@ class C07(Driver):
                     code = int(cs) if cs.lstrip("-").isdigit() else None
                     idx = procs.index(i)
                     ex = [c for c in child_exit if c[2] == idx and c[0] < e1.seq]
-                    ok = bool(ex) and code == st["code"]
+                    ok = bool(ex) and code == st["code"] and not (st.get("px") and code != 0)
                     why = "proc-wait returned %r, child exited=%r expected code %d" % (code, bool(ex), st["code"])
+                elif st.get("px") and st["code"] != 0 and payload == 'false "command failed with non-zero exit code %d"' % st["code"]:
+                    idx = procs.index(i)
+                    ok = any(c[2] == idx and c[0] < e1.seq for c in child_exit)
+                    why = "proc-wait raised the child's exit status before the child had exited"
                 else:
                     ok, why = False, "proc-wait resumed with an unrelated value"
             elif kind == "gather":
@@ -535,6 +561,8 @@ class C07(Driver):
                 continue
             si = a["ch"][0]
             st = steps[si]
+            if st.get("tchan"):
+                continue
             # Only gives issued when the victim was no longer there count: after its wait had returned, or after
             # the ev/cancel that ended it had been issued. (A give that hands its item to a waiter which is cancelled
             # in the same instant, before it could run, loses the item by design: the waiter was still there.)
@@ -562,13 +590,44 @@ class C07(Driver):
             if st["end"] != "tie" or i not in ret or i not in inv:
                 continue
             e1, payload = ret[i]
-            if self.classify(payload) != "deadline-expired":
+            if self.classify(payload) != "deadline-expired" or st.get("tchan"):
                 continue
             for j, a in enumerate(adv):
                 if a["a"] == "give" and a["ch"][0] == i and j in aret and aret[j][1][1] == "true" and aret[j][1][2] == ":ok" \
                         and ainv[j].seq < e1.seq:
                     V("C07/conservation/value-handed-over-in-the-turn-of-the-deadline-was-dropped/wait=%s" % st["kind"],
                       "give of %d on channel %r completed, the victim's step %d ended with 'deadline expired'" % (a["v"], a["ch"], i))
+        # ---- thread channels: a give that completed put its item somewhere - into the victim's result or back into
+        # the queue, once (a give that meets a stale entry completes at once; the entry's thread routes the item on)
+        if ":vdone" in [":" + e.kind for e in res.events]:
+            tleft = {}
+            for e in res.events:
+                if e.kind == "tleft":
+                    a_, b_, c_ = e.payload.split(" ")
+                    tleft.setdefault(int(a_), []).append(int(c_) if c_.lstrip("-").isdigit() else c_)
+            for j, a in enumerate(adv):
+                if a["a"] != "give" or j not in aret or not steps[a["ch"][0]].get("tchan"):
+                    continue
+                e, toks = aret[j]
+                if toks[1] != "true" or toks[2] != ":ok":
+                    continue
+                si = a["ch"][0]
+                if any(b["a"] == "close" and b["ch"] == a["ch"] and k in ainv for k, b in enumerate(adv)):
+                    continue        # (closing a channel discards what it holds)
+                if steps[si]["end"] == "cframe" and si in inv and ainv[j].seq < inv[si].seq:
+                    # the giver was already parked when the take under a C frame began: ev/take pops the item,
+                    # schedules its own resumption and awaits - and that await is what the C boundary turns into
+                    # an error. The item goes with it (not a stale waiter: the taker was there; see DESIGN 9)
+                    continue
+                n = tleft.get(si, []).count(a["v"])
+                if si in ret:
+                    payload = ret[si][1]
+                    if payload.endswith(") %d)" % a["v"]) or payload == "true %d" % a["v"]:
+                        n += 1
+                if n != 1:
+                    V("C07/conservation/thread-channel-item-%s/wait=%s/end=%s" % ("lost" if n == 0 else "duplicated", steps[si]["kind"], steps[si]["end"]),
+                      "give of %d on thread channel %r completed; the victim's step returned %s and the channel still held %r"
+                      % (a["v"], a["ch"], ret[si][1][:60] if si in ret else "<never>", tleft.get(si, [])))
         left = {}
         for e in res.events:
             if e.kind == "left":
@@ -748,6 +807,11 @@ class C07(Driver):
                 q = cp()
                 del q["steps"][k]["via_label"]
                 yield q
+            for flag in ("tchan", "bare_dl", "px"):
+                if st.get(flag):
+                    q = cp()
+                    del q["steps"][k][flag]
+                    yield q
         for k, st in enumerate(plan["steps"]):
             if st.get("late"):
                 q = cp()
